@@ -126,6 +126,10 @@ def _occ(p):
 
 
 def render_xsd(tpl, variant):
+    if variant == 'nd':
+        # the no-namespace schema written in a document that ALSO binds the default namespace (to the XSD namespace):
+        # nothing in it is unprefixed, so it denotes the same schema; only templates without QName references use it
+        return render_xsd(tpl, 'n').replace('<xs:schema ', '<xs:schema xmlns="%s" ' % XS, 1)
     pfx = 't:' if variant != 'n' else ''
 
     def type_attr_or_body(typ):
@@ -377,7 +381,7 @@ def apply_fault(root, fault):
 
 
 def node_ns(n, variant):
-    if variant == 'n':
+    if variant in ('n', 'nd'):
         return ''
     if variant == 'q2':
         return TNS2
@@ -394,7 +398,7 @@ def serialise(root, variant, form):
 
     def out(n, top):
         s = '<' + tag(n)
-        if top and variant != 'n':
+        if top and variant not in ('n', 'nd'):
             ns = TNS2 if variant == 'q2' else TNS
             s += ' xmlns:t="%s"' % ns if form == 'pre' else ' xmlns="%s"' % ns
         for a, v, _ in n.attrs:
@@ -523,7 +527,7 @@ def templates():
         Template('twov', [G('root', C(SEQ(
             E('p', C(SEQ(E('v', 'int', 1, 2)), attrs=[('a', 'int', False)]), 1, 2),
             E('q', C(SEQ(E('v', 'date'), E('w', 'str', 0, 1))), 0, 1))))],
-            note='v is xs:int under p and xs:date under q'),
+            variants=('n', 'q', 'nd'), note='v is xs:int under p and xs:date under q'),
         Template('refs', [G('root', C(SEQ(R('g', 1, 2), E('p', C(SEQ(R('g'), E('x', 'int', 0, 1))), 0, 2),
                                           E('s', C(SEQ(E('g', 'int', 1, 2))), 0, 1)))),
                           G('g', 'str')], roots=('root', 'g'),
@@ -597,7 +601,7 @@ def schema_keys():
 
 
 def doc_forms(variant):
-    return {'n': ('n',), 'q': ('pre', 'def'), 'u': ('pre',)}[variant]
+    return {'n': ('n',), 'nd': ('n',), 'q': ('pre', 'def'), 'u': ('pre',)}[variant]
 
 
 # --- corpus ---------------------------------------------------------------------------------------
